@@ -8,6 +8,12 @@ import warnings
 def _init():
     warnings.simplefilter("ignore")
     os.environ.setdefault("MPLBACKEND", "Agg")
+    # the C++ minimiser writes diagnostics straight to fd 2
+    try:
+        devnull = os.open(os.devnull, os.O_WRONLY)
+        os.dup2(devnull, 2)
+    except OSError:
+        pass
 
 
 def _run_chunk(args):
